@@ -40,7 +40,7 @@ prop(
     "C12",
     level="proof",
     design_ref="DESIGN.md section 3, C12",
-    groups=[(["./decoder"], r".*")],
+    groups=[(["./decoder"], r".*"), (["./pipeline"], r"^\(\*Pipeline\)\.In$")],
     canaries=[("./decoder", "replay/C12/zz_replay_c12_test.go", "TestVerifReplayC12"), ("./decoder", "replay/C12/zz_json_cut_test.go", "TestVerifJsonCutEscapes"), ("./decoder", "replay/C12/zz_cri_partial_last_byte_test.go", "TestVerifCRIPartialKeepsLastByte")],
     claim=(
         "Totality and frame of the hand-written decoders, for every byte string: DecodeCRI, DecodePostgres, nginx error (Decode, extractCustomFields, spaceSplit), "
@@ -283,7 +283,7 @@ prop(
     "C14",
     level="other",
     design_ref="DESIGN.md section 3, C14",
-    groups=[(["./pipeline/doif"], r"^(\(\*logicalNode\)\.Check|NewLogicalNode|NewFieldOpNode|\(\*fieldOpNode\)\.Check)$"),
+    groups=[(["./pipeline/doif"], r"^(\(\*logicalNode\)\.Check|NewLogicalNode|NewFieldOpNode|\(\*fieldOpNode\)\.Check|\(\*lenCmpOpNode\)\.Check)$"),
             (["./pipeline"], r"^(\(\*processor\)\.(isMatch|isMatchOr|isMatchAnd)|\(\*MatchCondition\)\.valueExists)$")],
     canaries=[("./pipeline", "replay/C14/zz_replay_c14_test.go", "TestVerifReplayC14")],
     claim=(
@@ -391,7 +391,8 @@ prop(
             (["./cfg"], r"^VerifyGroupNumbers$"),
             (["./pipeline"], r"^\(\*processor\)\.(processEvent|doActions)$"),
             (["./metric"], r"truncateLabels$"),
-            (["./plugin/action/decode", "./pipeline"], r"^\(\*Plugin\)\.(Do|decodeJson|checkError)$")],
+            (["./plugin/action/decode", "./pipeline"], r"^\(\*Plugin\)\.(Do|decodeJson|checkError)$"),
+            (["./plugin/action/parse_es", "./pipeline"], r"^\(\*Plugin\)\.Do$")],
     canaries=[("./plugin/action/mask", "replay/C17/zz_replay_c17_test.go", "TestVerifReplayC17Tail"), ("./plugin/input/k8s", "replay/C13/zz_replay_c13_test.go", "TestVerifReplayC13"),
               ("./pipeline", "replay/C13/zz_timeout_wrong_action_test.go", "TestVerifTimeoutGoesToTheWaitingAction"),
               ("./metric", "replay/C13/zz_label_utf8_test.go", "TestVerifLabelValuesFromEventContent"),
@@ -447,7 +448,7 @@ prop(
     "C03",
     level="other",
     design_ref="DESIGN.md section 3, C03",
-    groups=[(["./plugin/input/file", "./pipeline"], r"^(\(\*Plugin\)\.PassEvent|\(\*jobProvider\)\.(commit|truncateJob|initJobOffset|addJob|maintenanceJob)|\(\*worker\)\.(processEOF|work)|\(\*Pipeline\)\.streamEvent)$")],
+    groups=[(["./plugin/input/file", "./pipeline"], r"^(\(\*Plugin\)\.PassEvent|\(\*jobProvider\)\.(commit|truncateJob|initJobOffset|addJob|maintenanceJob)|\(\*worker\)\.(processEOF|work)|\(\*Pipeline\)\.streamEvent|sourceIDByStat)$")],
     canaries=[("./plugin/input/file", "replay/C03/zz_truncation_tail_test.go", "TestVerifTruncationDropsStaleTail"),
               ("./plugin/input/file", "replay/C03/zz_rejected_last_line_truncation_test.go", "TestVerifTruncationAfterRejectedLastLine")],
     claim=(
